@@ -495,6 +495,23 @@ def run(ctx):
         roundtrip(ctx, mon, x, "random")
         if i % 1009 == 0:
             ctx.sample({"op": "roundtrip", "value": gen.trepr(x)[:300]})
+    # shared sub-objects: the same container object referenced several times (a DAG is not a cycle)
+    for i in range(ctx.pick(300, 6000)):
+        budget = [40]
+        x = rand_nest(rng, 3, 3, budget)
+        if not isinstance(x, (list, dict, tuple)):
+            x = [x]
+        shape = rng.random()
+        if shape < 0.35:
+            v = [x, x]
+        elif shape < 0.6:
+            v = {"a": x, "b": (x, [x])}
+        elif shape < 0.8:
+            v = (x, {"k": x}, x)
+        else:
+            e = ()
+            v = [e, [e], {"t": e}, x, [x]]
+        roundtrip(ctx, mon, v, "shared-subobjects")
     # plain JSON data through load alone
     for i in range(ctx.pick(1000, 100000)):
         d = gen.json_value(rng, 4, 4)
